@@ -108,3 +108,143 @@ claim("C20",
        "not proved; pow/sqrt are oracle parameters (driver: Lean Float). Series with return variance < 1e-12*mean^2 compared by outcome class only. Defect repaired: 4a8a932.",
   technique="Lean 4 proof (loop invariant + list induction over Rat) + differential correspondence + exact-Fraction oracle",
   ref="DESIGN.md §2 C20")
+
+claim("C01",
+  text="Decided part by part (harness/c01_*.py, Proofs/C01/*.lean). Broker: get_account_status = wallet at the bar's prices + each market's net value x (1 or prices[market "
+       "quote]), every market and wallet entry exactly once (position-independent decomposition theorems), KeyError exactly when a price is missing. Uniswap: "
+       "get_market_balance = plain sums over non-transferred positions; transferred positions contribute 0. Squeeth: net value from raw vault state with the LP at index "
+       "price; invariant Once for every operation and history: a lent position is flagged, referenced by exactly one vault, skipped by the pool, no dangling reference. "
+       "Aave: reported = quantize(sum supplies) - quantize(sum debts) from raw scaled balances, within the 1e-4 quantum, each entry once. Deribit: every bar of any run "
+       "reports cash + sum amount x round(mark) (cached premium + current cash on closed bars), by induction over bar lists. GMX v1/v2: balance formulas from raw holdings. "
+       "Each part is tied to the code by step-wise differential execution against its compiled model and by an independent exact-Fraction valuation of the implementation's "
+       "raw state after every step, also through the real Broker.get_account_status with equal and different quote tokens, and on whole Actuator.run backtests (GMX, Deribit).",
+  note="Theorems are for exact rational arithmetic unless stated for every context; 35-digit Decimal rounding reproduced bit-exactly by the drivers. Aave's 4-decimal quantisation "
+       "of totals is allowed explicitly (decision in DESIGN.md). GMX v2 is float: compared at 1e-12. The cross-market composition (market parts + broker sum) is by theorem for "
+       "the broker sum over arbitrary per-market values and by oracle for the conversion of concrete markets. Fixes relied on: ce449ad, a6df880, c97518c, 7955ce6.",
+  technique="Lean 4 proof (list induction, invariants over operation histories) per market + step-wise differential correspondence + exact-Fraction valuation oracle",
+  ref="DESIGN.md §2 C01")
+
+claim("C02",
+  text="Lean theorems: prefix determinism of any loop whose per-bar view is local (outputs and state of the common prefix are identical on two histories agreeing on bars 0..k), "
+       "locality of the code's views (row lookup, Uniswap's shifted price column, Squeeth's 7-minute TWAP window tied to the generated TWAP_PERIOD, Deribit's hourly row, "
+       "resample-first), a witness that a peeking view is not local, and the concrete prefix theorem for the Actuator model. Tied to the code by two-suffix runs of the real "
+       "Actuator (probe markets, Uniswap, Uniswap+Aave, Uniswap+Deribit; 1 min, 5 min, 1 h) comparing rows/actions/snapshots of the common prefix, by comparing the real "
+       "lookups with the model's views, by hashing the supplied frames (incl. nested order-book lists) before and after, and by reruns on the same inputs.",
+  note="Frame immutability and rerun equality are aliasing/runtime facts a pure model cannot exhibit: measured by hashing, not proved. A strategy that reads self.data ahead of "
+       "time is outside the property. GMX and Squeeth whole runs are not in the two-suffix mix (Squeeth's window is checked through get_twap_price).",
+  technique="Lean 4 proof (fold/scan prefix lemma + view locality) + two-suffix differential runs, frame hashing, reruns",
+  ref="DESIGN.md §2 C02")
+
+claim("C03",
+  text="Decided part by part (harness/c03_*.py, Proofs/C03/*.lean): per market, theorems that at a frozen environment no operation (accepted or rejected) raises net value beyond "
+       "the wallet dust 1e-5 x touched balance (+ Aave's 1e-18 clamp / 1e-4 quantum where stated), that conservative operations conserve exactly up to that dust (Uniswap add/"
+       "remove/collect, Aave supply/withdraw/borrow/repay), that swaps lose exactly the reported fee (broker and pool), that holdings stay non-negative (Asset.sub for every "
+       "rounding context) and that nothing pays out more than is held, lifted to operation sequences by induction (Deribit, GMX v1, Squeeth). Each part runs operation sequences "
+       "with boundary, oversized, zero and negative amounts against the real market through Broker.get_account_status at frozen prices, compares step-wise with the compiled model "
+       "and evaluates the net-value/non-negativity oracle on the implementation's own states.",
+  note="Account funding calls (set_balance/add_to_balance/subtract_from_balance) move value by design and are not operations here. Known findings with kernel-checked witnesses: "
+       "moving an LP position into/out of a Squeeth vault re-values its oSQTH at index vs mark; liquidation of an underwater vault forgives the shortfall; remove_liquidity with a "
+       "caller-chosen pool price; GMX v2 deposit with positive price impact. Theorems for exact arithmetic unless stated; rounding measured bit-exactly. Many fix: commits (negative "
+       "amounts accepted by swaps, adds, deposits, supplies, borrows; oversells in Deribit/GMX).",
+  technique="Lean 4 proof (per-operation value lemmas, invariants, induction over op lists) per market + step-wise differential correspondence + frozen-market net-value oracle",
+  ref="DESIGN.md §2 C03")
+
+claim("C04",
+  text="Decided part by part (harness/c04_*.py, Proofs/C04/*.lean): for every operation of every market and the broker, a theorem that a rejected call returns exactly the input "
+       "state (wallet, positions/debts/vaults/holdings, visible order book, action log) for every rejection cause and every arithmetic context; multi-step helpers per constituent "
+       "transaction (Uniswap helpers, Squeeth update per liquidate). Witness theorems show the pre-repair code was not atomic. A rejection-directed generator constructs, per "
+       "operation and cause, states in which exactly that precondition fails, and diffs deep snapshots of the real objects around the raising call; the model's post-rejection state "
+       "is compared too.",
+  note="has_update is excluded by the property. Aave update() is covered only for the closed-market rejection. Holds because of the repairs (0614350, 07ef1e2, 236eb3f, 4da5e32, "
+       "a6df880, 763165f, 4fb272a, 155684f, 8743204, f93950b ...).",
+  technique="Lean 4 proof (case analysis: every check precedes the first mutation / transaction wrapper restores) per market + rejection-directed differential execution with deep snapshots",
+  ref="DESIGN.md §2 C04")
+
+claim("C05",
+  text="Lean theorems about the call trace of an executable model of Actuator.run over abstract markets, for all scripts, trigger lists and configurations: each bar of the "
+       "(resampled) index once, in order; the trace is sorted by (bar, phase) over 17 phases (before_bar, triggers, on_bar, second refresh, market update, after_bar, account row, "
+       "notify last); every accepted operation yields one action stamped with its bar and delivered to notify exactly once at the end of that bar; one account row per bar with its "
+       "timestamp and prices; update once per market per bar; second refresh iff has_update; is_open gates write_func operations; hourly markets open on whole hours; the resampled "
+       "index is the grid of bin labels. Tied to the code by exact call-trace equality against a real Actuator with in-memory Market subclasses and a real UniLpMarket, plus an "
+       "independent trace oracle.",
+  note="Markets are abstract in the model (index, is_open, has_update, open callback; operation and update effects uninterpreted); pandas resample/.loc exercised and compared, "
+       "not modelled internally; hooks do not raise or issue operations from notify(). The oracle on the implementation's trace is a Python restatement of the clauses.",
+  technique="Lean 4 proof (induction over bar lists on a trace semantics) + exact call-trace differential execution of the real Actuator + independent trace oracle",
+  ref="DESIGN.md §2 C05")
+
+claim("C08",
+  text="Lean theorems about the model of V3CoreLib.update_fee, set_market_status, update and the bar loop: the four-tick sort weight = in-range path fraction for all ticks and "
+       "ranges, in [0,1] (the 'weight must <=1' error is unreachable); per-token fee formula, non-negativity, zero when out of range all bar; share own/(pool+own); the path starts "
+       "at the previous bar's close whatever runs in the bar (arbitrary hooks under a Frame hypothesis discharged for every operation); other operations enter only through the share "
+       "denominator; liquidity added in a bar earns in it; witness that the pre-repair refresh broke the path start. Tied to the code by bit-exact differential execution of "
+       "update_fee (int, int64, float64 tick dtypes, boundary stream) and of every set_market_status/update() in real Actuator.run with scripted operations, plus a Fraction "
+       "oracle and paired runs.",
+  note="Arithmetic theorems for exact rationals; the driver reproduces 35-digit Decimal bit-exactly and the oracle allows 1e-30. Bar 0 starts at its own close (no previous bar; "
+       "decision in DESIGN.md). pandas row extraction and the Actuator phase order are exercised here and proved in C05. Fixes: e33398a, 43784a1.",
+  technique="Lean 4 proof (grind over the insertion sort, induction over bars and operation lists) + differential correspondence + exact-Fraction oracle",
+  ref="DESIGN.md §2 C08")
+
+claim("C09",
+  text="C09_orchestration: all orchestration code of the Uniswap market commutes exactly with the token-order mirror for any two numeric kernels related by the mirror law, any "
+       "arithmetic context and any sequence of base/quote-denominated operations (add by price/tick, remove, collect, remove all, swap, buy, sell, even rebalance, transfers): same "
+       "outcomes step by step, final states mirror each other. Kernel reciprocity |s(t)s(-t) - 2^192| <= 2 max for all ticks (exhaustive kernel sweep, C06_reciprocity) and a "
+       "witness that floor does not commute with negation (add_liquidity_by_value). The harness runs the real market on a pool and its mirror and compares all observables at 1e-12 "
+       "(0.1 % for estimate helpers), and compares both orientations bit-exactly with the model.",
+  note="Closeness of the concrete kernel's results (1e-12 / 0.1 %) is MEASURED, not proved (a full error analysis through the integer floors is out of scope): |tick| <= 330000, "
+       "tolerance max(1e-12, 2/L_min), states with the price within 1e-9 of a range bound skipped as ill-conditioned. Known finding: add_liquidity_by_value rounds the floor tick to "
+       "the spacing, so the two token orders can land one spacing apart. The action log is excluded from the mirrored state (lower/upper price labels swap). Fixes: 67e82e9, 43cd360.",
+  technique="Lean 4 simulation proof with an abstract kernel + exhaustive kernel sweep + two-orientation differential execution",
+  ref="DESIGN.md §2 C09")
+
+claim("C10",
+  text="Lean theorems (exact arithmetic) about the Aave state machine: supply/withdraw/borrow/repay/repay-with-collateral move exactly the stated amounts (wallet within Asset.sub's "
+       "dust), nothing else changes; full withdraw/repay removes the entry; balance = a x I_now / I_0 after any history of bars and non-targeting operations (supply and debt side); "
+       "split = merge for supplies, borrows, withdrawals. Tied to the code by bit-exact step-wise differential execution over random non-decreasing index paths and interleavings "
+       "and a shadow-ledger oracle checking 1e-18 on every step.",
+  note="The 35-digit rounding is measured (driver bit-exact with CPython; oracle 1e-18 within the envelope), the eps-robust versions planned in DESIGN.md are not proved; no repay-split "
+       "theorem (oracle only). The sub_base_amount clamp (< 1e-18) is explicit in the statements.",
+  technique="Lean 4 proof (inversion of accepted calls, induction over histories) + step-wise differential correspondence + shadow-ledger oracle",
+  ref="DESIGN.md §2 C10")
+
+claim("C13",
+  text="Lean theorems for every arithmetic context: the five DictCaches are model state, every public read is an operation; coherence (each cache empty or equal to recomputation) is "
+       "preserved by every read, write, rejected call, liquidation and bar change, hence an invariant of every history, hence every view read equals its from-scratch recomputation "
+       "in every reachable state; per-token value = base x index x price; listed supplies carry the stored collateral flag. Tied to the code by step-wise differential execution of "
+       "read-write-read interleavings (caches dumped) and a warm-vs-cold-cache oracle.",
+  note="Hypotheses: the bar's data covers the held tokens, indices non-zero; one post-mutation raise inside _do_liquidate (variable_delt < actual_debt_to_liquidate) is excluded "
+       "(never observed in 139 000 cases). APYs via the model's dpowNat. Fixes: 304deb1, c25cbec.",
+  technique="Lean 4 proof (cache-coherence invariant, per-write reset lemmas, induction over histories) + differential execution + warm-vs-cold oracle",
+  ref="DESIGN.md §2 C13")
+
+claim("C15",
+  text="28 Lean theorems about the Deribit order model: market orders fill in book order on an initial segment of the non-empty levels at printed prices and at most printed sizes, "
+       "sum to the amount rounded to the contract step, cost sum p*q plus round(min(0.03 % x contracts, 12.5 % x premium)) (constants regenerated from the source); limit orders fill "
+       "only at a level within +-0.1 %; mark caps exclude worse levels; the written-back book is the old book minus fills and is never overdrawn along any in-bar sequence; cash and "
+       "position change exactly with size-weighted averages; equity = cash + sum amount x round(mark); sells of what is not held are rejected with the state intact. Tied to the code "
+       "by bit-exact step-wise differential execution against driver_deribit (Lean Float for the float sizes) and a Fraction oracle on the implementation's observations.",
+  note="Sum and cash theorems are for exact Decimal arithmetic with book floats read as reals; C15_market_fill_total_any_float extends the fill total to any float semantics satisfying "
+       "three IEEE/CPython sanity laws (assumed of the hardware). Assumes unique instrument names and distinct price levels per side (data contract). Ten fix: commits.",
+  technique="Lean 4 proof (induction over levels, fills and operation lists) + step-wise differential correspondence + Fraction oracle",
+  ref="DESIGN.md §2 C15")
+
+claim("C16",
+  text="Lean theorems: update settles exactly the positions with expiry <= now on the hourly grid, one Expired and at most one Deliver record each, payoff = round(contracts x |S-K|/S) "
+       "- round(min(0.015 % x contracts, 12.5 % x contracts x round(mark))) when in the money and above the fee, else nothing; off the grid update does nothing; trades are refused "
+       "on bars without option data; through the bar loop (any bar grid, every context) a held position survives every bar before the first on-grid bar at or after expiry, is removed "
+       "there, never reappears, exactly one Expired record. Tied to the code by whole-run differential execution of a real Actuator.run with a minutely Uniswap co-market and an "
+       "oracle recomputed from the data frames and the strategy's ledger.",
+  note="The run-level exactly-once theorem is for hold runs (no trading of that instrument in between); per-bar theorems cover bars with trades. The payoff ratio is numpy float on "
+       "book rows and Decimal on the fallback price, both modelled; theorems use exact reals, float last-bit deviation measured (0 observed after rounding to 1e-6). Fix: 9b40b72.",
+  technique="Lean 4 proof (induction over bar lists) + whole-run differential execution + data-frame oracle",
+  ref="DESIGN.md §2 C16")
+
+claim("C18",
+  text="23 Lean theorems over an executable model of trigger.py and the Actuator's trigger loop: what each specification denotes ({t}, times, union of [s,e), t0+pend+k*delta, union "
+       "over several periods); C18_fires_eq_denoted: for every strictly increasing bar list and every list of installed triggers of every class, through evaluation and retirement, "
+       "the calls of trigger i are exactly one call per denoted bar, in order, with its kwargs; independence of other triggers; is_out_date sound; period triggers never retired; "
+       "instantiated for arithmetic grids and for the full Actuator.run model; the run raises iff a trigger was built from an empty list; witnesses of the pre-fix starvation. Tied "
+       "to the code by differential execution of the real Actuator against the compiled model and an independent Python oracle of the denotation.",
+  note="Model = repaired code (43f1fdf, 79587c6, 840da9c); bar times taken from the implementation's own before_bar calls; PriceTrigger/CustomizedTrigger out of scope; empty-list "
+       "triggers raise (proved, not repaired); hooks assumed not to mutate strategy.triggers.",
+  technique="Lean 4 proof (induction over bar and trigger lists, lattice invariant for period triggers) + differential execution of the real Actuator + denotation oracle",
+  ref="DESIGN.md §2 C18")
